@@ -560,6 +560,7 @@ class SimBus:
         self._ring_results = {}
         self.route_by_data0 = False   # stand-in for the dispatcher's ethertype rewrite
         self.send_fault = None        # callable -> True: sendto() fails with ENOBUFS
+        self.delay_for = None         # callable(no, frame) -> seconds to hold this frame back
 
     def add_terminal(self, term):
         self.terminals.append(term)
@@ -587,6 +588,14 @@ class SimBus:
             self.world.count("fault/frame-lost")
             self.world.log(self.ifname, "lost", no)
             return
+        if self.delay_for is not None:
+            d = self.delay_for(no, frame)
+            if d is not None:
+                # this frame is held back for long (and overtaken by the ones behind it)
+                self.world.count("fault/frame-held-back")
+                self.in_flight += 1
+                self.world.at(self.world.now + d, self._arrive, no, frame, True)
+                return
         delay = f.delay_buckets[tape.draw("wire/delay", len(f.delay_buckets))]
         if f.enabled and f.late and tape.chance("wire/late", f.late):
             # later than the 20 ms after which a sync group sends its frame again
